@@ -148,8 +148,11 @@ class CTMCUniformGrid(CTMCGrid):
         l, r = compute_truncation(
             model=model, h=h, truncation_probability=truncation_probability
         )
-        nb_of_points_left = int(abs(l) / h)
-        nb_of_points_right = int(r / h)
+        # each half-axis holds -h (resp. +h) next to the origin and ends at its truncation bound: a bound closer to
+        # the origin than h is moved out to h (the grid then keeps more than the requested probability)
+        l, r = min(l, -h), max(r, h)
+        nb_of_points_left = max(int(abs(l) / h), 2 if l < -h else 1)
+        nb_of_points_right = max(int(r / h), 2 if r > h else 1)
         if nb_of_points_left + nb_of_points_right > 1e8:
             raise ValueError(
                 "the number of points is greater than 10M, choose a smaller value for the "
@@ -275,6 +278,11 @@ class CTMCGridGeometric(CTMCGrid):
         l, r = compute_truncation(
             model=model, h=h, truncation_probability=truncation_probability
         )
+        if not (l < -h and r > h):
+            raise ValueError(
+                "the truncation bounds are within h of the origin, choose a smaller value for h or a greater "
+                "value for the truncation_probability"
+            )
         axis_right = np.geomspace(start=h, stop=r, num=nb_of_points_on_each_side)
         axis_left = np.geomspace(start=l, stop=-h, num=nb_of_points_on_each_side)
         axis = np.concatenate((axis_left, [0.0], axis_right))
